@@ -39,6 +39,7 @@ def shards(tier):
             out.append(dict(dev=dev, op="transfer", sgeo=sg, dgeo=dg, k=2, steps=1, partition_by="auto", washes=[1], ncand=2, wl_max=common.BIG * 2, bcast=["src:scalar", "src:list1", "dst:scalar", "dst:list1", "vol:scalar", "vol:list1", "src:scalar+vol:scalar"]))
             for bad in ("vols+1", "dst+1", "vols-1", "src-1"):
                 out.append(dict(dev=dev, op="transfer", sgeo=sg, dgeo=dg, k=3 if bad.endswith("-1") else 2, steps=2, partition_by="auto", bad=bad, ncand=2, washes=[1]))
+    out.append(dict(part="twoplates", concrete=True, k=1, steps=1))
     return out
 
 
@@ -54,7 +55,63 @@ def witnesses(tier):
     return {"ok", "split", "break", "rejected-lengths", "wash:W", "wash:F", "wash:none", "diti:W;", "exc:wash"}
 
 
+def scenario_twoplates(ctx, p):
+    """history: two transfers on ONE worklist; the second uses a different labware object that carries the same name as one used
+    before but has another geometry (a plate put on the same site later)"""
+    ns = common.rt()
+    c = ctx.ctx
+    dev = ctx.choose("dev", ["evo", "fluent"])
+    side = ctx.choose("renamed", ["destination", "source"])
+    wl = common.make_worklist(ctx, dev, 1000)
+    big = ns.Labware("Assay", 8, 12, min_volume=0, max_volume=10000, initial_volumes=2000)
+    small = ns.Labware("Assay", 4, 6, min_volume=0, max_volume=10000, initial_volumes=2000)
+    other = ns.Labware("Other", 8, 12, min_volume=0, max_volume=10000, initial_volumes=2000)
+    wells, vols = ["A02", "B02", "C03", "D03"], [400.0, 410.0, 420.0, 430.0]
+    flows = []
+    for plate, rows in ((big, 8), (small, 4)):
+        n0 = len(wl)
+        if side == "destination":
+            wl.transfer(other, wells, plate, wells, vols)
+        else:
+            wl.transfer(plate, wells, other, wells, vols)
+        flows.append((rows, list(wl)[n0:]))
+    c.update(cfg=(dev, side), flows=flows, wells=wells, vols=vols)
+    return wl
+
+
+def judge_twoplates(ctx, p, outcome):
+    kind, val = outcome
+    c = ctx.ctx
+    if kind == "exc":
+        ctx.violate(f"C07: {type(val).__name__}: {val}")
+        return
+    ctx.reach("ok")
+    dev, side = c["cfg"]
+    for rows, recs in c["flows"]:
+        got = {}
+        a = None
+        for r in recs:
+            f = r.split(";")
+            if f[0] == "A":
+                a = (f[1], int(f[4]), float(f[6]))
+            elif f[0] == "D":
+                key = (a[0], a[1], f[1], int(f[4]))
+                got[key] = got.get(key, 0) + a[2]
+        want = {}
+        for w, v in zip(c["wells"], c["vols"]):
+            r_, c_ = "ABCDEFGH".index(w[0]), int(w[1:]) - 1
+            p_assay, p_other = 1 + c_ * rows + r_, 1 + c_ * 8 + r_
+            key = ("Other", p_other, "Assay", p_assay) if side == "destination" else ("Assay", p_assay, "Other", p_other)
+            want[key] = v
+        if got != want:
+            ctx.violate("C07: flows of a transfer differ from the requested ones when a same-named labware of another geometry was used before",
+                        info=f"{dev} renamed {side}, plate with {rows} rows: got {got} want {want}")
+            return
+
+
 def scenario(ctx, p):
+    if p.get("part") == "twoplates":
+        return scenario_twoplates(ctx, p)
     W = wlops.build(ctx, p)
     ctx.ctx["W"] = W
     wlops.run(ctx, W)
@@ -78,6 +135,8 @@ def judge(ctx, p, outcome):
     kind, val = outcome
     if kind not in ("ok", "exc"):
         return
+    if p.get("part") == "twoplates":
+        return judge_twoplates(ctx, p, outcome)
     W = ctx.ctx["W"]
     ns = common.rt()
     recs = list(W.wl)
@@ -207,4 +266,10 @@ def judge(ctx, p, outcome):
             ctx.violate(f"C07: column group {col} contained a split volume but is not closed by a break record")
 
 
-describe = __import__("harness.C01", fromlist=["describe"]).describe
+_describe01 = __import__("harness.C01", fromlist=["describe"]).describe
+
+
+def describe(ctx, p, outcome):
+    if p.get("part") == "twoplates":
+        return f"  {ctx.ctx.get('cfg')} flows={ctx.ctx.get('flows')}"
+    return _describe01(ctx, p, outcome)
